@@ -53,7 +53,7 @@ Notation store := (@store F).
 Notation exec := (@exec F OF feq stop).
 
 Definition mst (order nfft A P psi K sm mk' i : value) : store := [order; nfft; A; P; psi; K; sm; mk'; i].
-Ltac ev := cbn [LoopIR.exec LoopIR.eval get set nth mst bind try asZ asArr asF ok err fst snd arith arithZ fop compare cmpZ eqne truthy eval_list].
+Ltac ev := cbn [LoopIR.exec LoopIR.eval get set nth mst bind try asZ asArr asF ok err fst snd arith arithZ fop compare cmpF cmpZ eqne truthy eval_list].
 
 Lemma ofZ_nat n : @ofZ F OF (Z.of_nat n) = ofnat n.
 Proof. destruct n; [reflexivity|]. cbn [Z.of_nat ofZ]. rewrite SuccNat2Pos.id_succ. reflexivity. Qed.
